@@ -26,6 +26,252 @@ pub mod vx_ids {
 
 /*@include units/ids_common/spec.rs @*/
 
+    // ------------------------------------------------------------------------------------------
+    // merge: the two-finger sweep.  `fa` / `fb` are the *frontiers* of the two inputs: every clock of
+    // `a` below `fa` (of `b` below `fb`) has been emitted into the result, nothing else has.
+    // ------------------------------------------------------------------------------------------
+    /// one past the largest u32: the frontier of an exhausted input
+    pub open spec fn inf() -> int {
+        0x1_0000_0000
+    }
+
+    pub open spec fn umax(x: u32, y: u32) -> u32 {
+        if x >= y { x } else { y }
+    }
+
+    pub open spec fn umin(x: u32, y: u32) -> u32 {
+        if x <= y { x } else { y }
+    }
+
+    /// frontier of an input whose cursor is (entry `i`, clock `cur`)
+    pub open spec fn front<T>(s: Seq<Ent<T>>, i: int, cur: int) -> int {
+        if i < s.len() { cur } else { inf() }
+    }
+
+    /// frontier right after entry `i` has been consumed completely
+    pub open spec fn next_front<T>(s: Seq<Ent<T>>, i: int) -> int {
+        front(s, i + 1, s[i + 1].0.start as int)
+    }
+
+    /// invariant of the sweep
+    pub open spec fn minv<T: Merge>(a: Seq<Ent<T>>, b: Seq<Ent<T>>, r: Seq<Ent<T>>, fa: int, fb: int) -> bool {
+        &&& canon(r)
+        &&& (r.len() > 0 ==> r.last().0.end <= fa && r.last().0.end <= fb)
+        &&& forall|c: int| #![trigger covers(r, c)] #![trigger covers(a, c)] #![trigger covers(b, c)]
+                covers(r, c) <==> (covers(a, c) && c < fa) || (covers(b, c) && c < fb)
+        &&& forall|c: int| covers(r, c) && covers(a, c) && !covers(b, c) ==> (#[trigger] val_at(r, c)).eq_spec(&val_at(a, c))
+        &&& forall|c: int| covers(r, c) && !covers(a, c) && covers(b, c) ==> (#[trigger] val_at(r, c)).eq_spec(&val_at(b, c))
+        &&& forall|c: int| covers(r, c) && covers(a, c) && covers(b, c) ==> (#[trigger] val_at(r, c)).eq_spec(&val_at(a, c).merge_spec(&val_at(b, c)))
+    }
+
+    /// every covered clock is a u32
+    pub proof fn lemma_covers_lt_inf<T>(s: Seq<Ent<T>>, c: int)
+        requires covers(s, c),
+        ensures 0 <= c < inf(),
+    {
+        let k = idx_of(s, c);
+        assert(inr(s[k].0, c));
+    }
+
+    /// `other` is empty: nothing to do
+    pub proof fn lemma_merge_empty_other<T: Merge>(s: Seq<Ent<T>>, o: Seq<Ent<T>>)
+        requires canon(s), o.len() == 0,
+        ensures
+            forall|c: int| covers(s, c) <==> covers(s, c) || covers(o, c),
+            forall|c: int| covers(s, c) && !covers(o, c) ==> #[trigger] val_at(s, c).eq_spec(&val_at(s, c)),
+    {
+        assert forall|c: int| !covers(o, c) by {
+            if covers(o, c) { let k = idx_of(o, c); assert(inr(o[k].0, c)); }
+        }
+        assert forall|c: int| covers(s, c) implies #[trigger] val_at(s, c).eq_spec(&val_at(s, c)) by {
+            let k = idx_of(s, c);
+            assert(inr(s[k].0, c));
+            assert(s[k].1.wf());
+            s[k].1.law_eq_refl();
+        }
+    }
+
+    /// `self` is empty: the result is a copy of `other`
+    pub proof fn lemma_merge_empty_self<T: Merge>(s: Seq<Ent<T>>, o: Seq<Ent<T>>)
+        requires canon(o), s.len() == 0,
+        ensures
+            forall|c: int| covers(o, c) <==> covers(s, c) || covers(o, c),
+            forall|c: int| !covers(s, c) && covers(o, c) ==> #[trigger] val_at(o, c).eq_spec(&val_at(o, c)),
+            forall|c: int| !covers(s, c),
+    {
+        lemma_merge_empty_other(o, s);
+        assert forall|c: int| !covers(s, c) by {
+            if covers(s, c) { let k = idx_of(s, c); assert(inr(s[k].0, c)); }
+        }
+    }
+
+    /// the sweep starts with an empty result and both cursors at the first entry
+    pub proof fn lemma_minv_init<T: Merge>(a: Seq<Ent<T>>, b: Seq<Ent<T>>, r: Seq<Ent<T>>)
+        requires sorted(a), sorted(b), a.len() > 0, b.len() > 0, r.len() == 0,
+        ensures minv(a, b, r, a[0].0.start as int, b[0].0.start as int),
+    {
+        assert forall|c: int| !covers(r, c) by {
+            if covers(r, c) { let k = idx_of(r, c); assert(inr(r[k].0, c)); }
+        }
+        assert forall|c: int| covers(a, c) implies a[0].0.start <= c by {
+            let k = idx_of(a, c);
+            assert(inr(a[k].0, c));
+            if k > 0 { assert(a[0].0.end <= a[k].0.start); }
+        }
+        assert forall|c: int| covers(b, c) implies b[0].0.start <= c by {
+            let k = idx_of(b, c);
+            assert(inr(b[k].0, c));
+            if k > 0 { assert(b[0].0.end <= b[k].0.start); }
+        }
+    }
+
+    /// consuming the rest `[cur, s[i].end)` of entry `i` moves the frontier to the next entry
+    pub proof fn lemma_adv_full<T>(s: Seq<Ent<T>>, i: int, cur: int)
+        requires
+            sorted(s), nonempty(s),
+            0 <= i < s.len(),
+            s[i].0.start <= cur < s[i].0.end,
+        ensures
+            s[i].0.end <= next_front(s, i),
+            forall|c: int| #![trigger covers(s, c)] (covers(s, c) && c < next_front(s, i)) <==> (covers(s, c) && c < cur) || (cur <= c < s[i].0.end),
+            forall|c: int| cur <= c < s[i].0.end ==> covers(s, c) && #[trigger] val_at(s, c) == s[i].1,
+    {
+        let nf = next_front(s, i);
+        if i + 1 < s.len() {
+            assert(s[i].0.end <= s[i + 1].0.start);
+        }
+        assert forall|c: int| #![trigger covers(s, c)] (covers(s, c) && c < nf) <==> (covers(s, c) && c < cur) || (cur <= c < s[i].0.end) by {
+            if covers(s, c) && c < nf {
+                let k = idx_of(s, c);
+                assert(inr(s[k].0, c));
+                if k < i {
+                    assert(s[k].0.end <= s[i].0.start);
+                } else if k > i {
+                    assert(s[i + 1].0.start < s[i + 1].0.end);
+                    if k > i + 1 { assert(s[i + 1].0.end <= s[k].0.start); }
+                    assert(false);
+                }
+            }
+            if cur <= c < s[i].0.end {
+                assert(inr(s[i].0, c));
+            }
+            if covers(s, c) && c < cur {
+                lemma_covers_lt_inf(s, c);
+            }
+        }
+        assert forall|c: int| cur <= c < s[i].0.end implies covers(s, c) && #[trigger] val_at(s, c) == s[i].1 by {
+            assert(inr(s[i].0, c));
+            lemma_idx_unique(s, i, c);
+        }
+    }
+
+    /// consuming `[cur, new)` of entry `i` (which extends at least to `new`) moves the frontier to `new`
+    pub proof fn lemma_adv_part<T>(s: Seq<Ent<T>>, i: int, cur: int, new: int)
+        requires
+            sorted(s),
+            0 <= i < s.len(),
+            s[i].0.start <= cur <= new <= s[i].0.end,
+        ensures
+            forall|c: int| #![trigger covers(s, c)] (covers(s, c) && c < new) <==> (covers(s, c) && c < cur) || (cur <= c < new),
+            forall|c: int| cur <= c < new ==> covers(s, c) && #[trigger] val_at(s, c) == s[i].1,
+    {
+        assert forall|c: int| #![trigger covers(s, c)] (covers(s, c) && c < new) <==> (covers(s, c) && c < cur) || (cur <= c < new) by {
+            if cur <= c < new {
+                assert(inr(s[i].0, c));
+            }
+        }
+        assert forall|c: int| cur <= c < new implies covers(s, c) && #[trigger] val_at(s, c) == s[i].1 by {
+            assert(inr(s[i].0, c));
+            lemma_idx_unique(s, i, c);
+        }
+    }
+
+    /// one emission: `r2` is `r` after `push_coalesced(r, s..e, v)`; the piece `[s, e)` comes from `a`
+    /// (`ina`), from `b` (`inb`) or from both, and the frontiers move from `(fa, fb)` to `(fa2, fb2)`
+    pub proof fn lemma_step<T: Merge>(a: Seq<Ent<T>>, b: Seq<Ent<T>>, r: Seq<Ent<T>>, r2: Seq<Ent<T>>,
+        fa: int, fb: int, fa2: int, fb2: int, s: u32, e: u32, v: T, ina: bool, inb: bool)
+        requires
+            minv(a, b, r, fa, fb),
+            s < e,
+            // what push_coalesced promises
+            canon(r2),
+            forall|c: int| #![trigger covers(r2, c)] covers(r2, c) <==> covers(r, c) || inr(s..e, c),
+            forall|c: int| covers(r, c) ==> #[trigger] val_at(r2, c) == val_at(r, c),
+            forall|c: int| inr(s..e, c) ==> #[trigger] val_at(r2, c).eq_spec(&v),
+            r2.len() > 0 && r2.last().0.end == e,
+            // where the piece comes from
+            ina || inb,
+            e <= fa2, e <= fb2,
+            !ina ==> fa2 == fa,
+            !inb ==> fb2 == fb,
+            ina ==> forall|c: int| #![trigger covers(a, c)] (covers(a, c) && c < fa2) <==> (covers(a, c) && c < fa) || (s <= c < e),
+            inb ==> forall|c: int| #![trigger covers(b, c)] (covers(b, c) && c < fb2) <==> (covers(b, c) && c < fb) || (s <= c < e),
+            ina && !inb ==> forall|c: int| s <= c < e ==> #[trigger] val_at(a, c) == v,
+            !ina && inb ==> forall|c: int| s <= c < e ==> #[trigger] val_at(b, c) == v,
+            ina && inb ==> forall|c: int| #![trigger val_at(a, c)] s <= c < e ==> val_at(a, c).merge_spec(&val_at(b, c)) == v,
+        ensures
+            minv(a, b, r2, fa2, fb2),
+    {
+        assert forall|c: int| #![trigger covers(r2, c)] #![trigger covers(a, c)] #![trigger covers(b, c)]
+            covers(r2, c) <==> (covers(a, c) && c < fa2) || (covers(b, c) && c < fb2) by {
+            assert(covers(r2, c) <==> covers(r, c) || inr(s..e, c));
+            assert(covers(r, c) <==> (covers(a, c) && c < fa) || (covers(b, c) && c < fb));
+        }
+        assert forall|c: int| covers(r2, c) implies
+            (covers(a, c) && !covers(b, c) ==> (#[trigger] val_at(r2, c)).eq_spec(&val_at(a, c)))
+            && (!covers(a, c) && covers(b, c) ==> val_at(r2, c).eq_spec(&val_at(b, c)))
+            && (covers(a, c) && covers(b, c) ==> val_at(r2, c).eq_spec(&val_at(a, c).merge_spec(&val_at(b, c)))) by {
+            if covers(r, c) {
+                assert(val_at(r2, c) == val_at(r, c));
+            } else {
+                assert(inr(s..e, c));
+                assert(val_at(r2, c).eq_spec(&v));
+                assert(covers(r, c) <==> (covers(a, c) && c < fa) || (covers(b, c) && c < fb));
+                // membership of c in a / b is as declared
+                if ina {
+                    assert((covers(a, c) && c < fa2) <==> (covers(a, c) && c < fa) || (s <= c < e));
+                    assert(covers(a, c));
+                } else {
+                    assert(!covers(a, c));
+                }
+                if inb {
+                    assert((covers(b, c) && c < fb2) <==> (covers(b, c) && c < fb) || (s <= c < e));
+                    assert(covers(b, c));
+                } else {
+                    assert(!covers(b, c));
+                }
+                if ina && !inb { assert(val_at(a, c) == v); }
+                if !ina && inb { assert(val_at(b, c) == v); }
+                if ina && inb { assert(val_at(a, c).merge_spec(&val_at(b, c)) == v); }
+            }
+        }
+    }
+
+    /// both inputs exhausted: the invariant is the contract
+    pub proof fn lemma_minv_final<T: Merge>(a: Seq<Ent<T>>, b: Seq<Ent<T>>, r: Seq<Ent<T>>)
+        requires minv(a, b, r, inf(), inf()),
+        ensures
+            canon(r),
+            forall|c: int| covers(r, c) <==> covers(a, c) || covers(b, c),
+            forall|c: int| covers(a, c) && !covers(b, c) ==> #[trigger] val_at(r, c).eq_spec(&val_at(a, c)),
+            forall|c: int| !covers(a, c) && covers(b, c) ==> #[trigger] val_at(r, c).eq_spec(&val_at(b, c)),
+            forall|c: int| covers(a, c) && covers(b, c) ==> #[trigger] val_at(r, c).eq_spec(&val_at(a, c).merge_spec(&val_at(b, c))),
+    {
+        assert forall|c: int| covers(r, c) <==> covers(a, c) || covers(b, c) by {
+            if covers(a, c) { lemma_covers_lt_inf(a, c); }
+            if covers(b, c) { lemma_covers_lt_inf(b, c); }
+        }
+        assert forall|c: int| covers(a, c) && !covers(b, c) implies #[trigger] val_at(r, c).eq_spec(&val_at(a, c)) by {
+            assert(covers(r, c));
+        }
+        assert forall|c: int| !covers(a, c) && covers(b, c) implies #[trigger] val_at(r, c).eq_spec(&val_at(b, c)) by {
+            assert(covers(r, c));
+        }
+        assert forall|c: int| covers(a, c) && covers(b, c) implies #[trigger] val_at(r, c).eq_spec(&val_at(a, c).merge_spec(&val_at(b, c))) by {
+            assert(covers(r, c));
+        }
+    }
+
     impl<T: Merge> IdRanges<T> {
         /*@extract yrs/src/ids.rs | impl<T: Merge> IdRanges<T> | fn merge
         @sig
@@ -36,8 +282,129 @@ pub mod vx_ids {
                 forall|c: int| covers(old(self)@, c) && !covers(other@, c) ==> #[trigger] val_at(final(self)@, c).eq_spec(&val_at(old(self)@, c)),
                 forall|c: int| !covers(old(self)@, c) && covers(other@, c) ==> #[trigger] val_at(final(self)@, c).eq_spec(&val_at(other@, c)),
                 forall|c: int| covers(old(self)@, c) && covers(other@, c) ==> #[trigger] val_at(final(self)@, c).eq_spec(&val_at(old(self)@, c).merge_spec(&val_at(other@, c))),
-                @loop 1
+        @before 1 `return;`
+            proof { lemma_merge_empty_other(self@, other@); }
+        @before 2 `return;`
+            proof {
+                assert(self.0@ =~= other.0@);
+                lemma_merge_empty_self(old(self)@, other@);
+            }
+        @before 1 `let mut result`
+            proof {
+                axiom_vec_len_bound(&a);
+                axiom_vec_len_bound(b);
+            }
+        @before 1 `while ai`
+            proof { lemma_minv_init(a@, b@, result@); }
+        @loop 1
+            invariant_except_break
+                ai < a.len() ==> a@[ai as int].0.start <= a_cur < a@[ai as int].0.end,
+                bi < b.len() ==> b@[bi as int].0.start <= b_cur < b@[bi as int].0.end,
+                minv(a@, b@, result@, front(a@, ai as int, a_cur as int), front(b@, bi as int, b_cur as int)),
+            invariant
+                a@ == old(self)@,
+                b@ == other@,
+                canon(a@),
+                canon(b@),
+                ai <= a.len(),
+                bi <= b.len(),
+            ensures
+                minv(a@, b@, result@, inf(), inf()),
             decreases a.len() - ai + b.len() - bi,
+        @before 1 `let a_avail`
+            let ghost r0 = result@;
+            let ghost fa = front(a@, ai as int, a_cur as int);
+            let ghost fb = front(b@, bi as int, b_cur as int);
+        @after 1 `push_coalesced(`
+            proof {
+                lemma_adv_full(a@, ai as int, a_cur as int);
+                lemma_step(a@, b@, r0, result@, fa, fb, next_front(a@, ai as int), fb,
+                    a_cur, a@[ai as int].0.end, a@[ai as int].1, true, false);
+            }
+        @loop 2
+            invariant
+                canon(a@),
+                canon(b@),
+                ai <= i <= a.len(),
+                minv(a@, b@, result@, front(a@, i as int, a@[i as int].0.start as int), inf()),
+        @before 2 `push_coalesced(`
+            let ghost r1 = result@;
+        @after 2 `push_coalesced(`
+            proof {
+                lemma_adv_full(a@, i as int, a@[i as int].0.start as int);
+                lemma_step(a@, b@, r1, result@, front(a@, i as int, a@[i as int].0.start as int), inf(), next_front(a@, i as int), inf(),
+                    a@[i as int].0.start, a@[i as int].0.end, a@[i as int].1, true, false);
+            }
+        @after 3 `push_coalesced(`
+            proof {
+                lemma_adv_full(b@, bi as int, b_cur as int);
+                lemma_step(a@, b@, r0, result@, fa, fb, fa, next_front(b@, bi as int),
+                    b_cur, b@[bi as int].0.end, b@[bi as int].1, false, true);
+            }
+        @loop 3
+            invariant
+                canon(a@),
+                canon(b@),
+                bi <= i <= b.len(),
+                minv(a@, b@, result@, inf(), front(b@, i as int, b@[i as int].0.start as int)),
+        @before 4 `push_coalesced(`
+            let ghost r1 = result@;
+        @after 4 `push_coalesced(`
+            proof {
+                lemma_adv_full(b@, i as int, b@[i as int].0.start as int);
+                lemma_step(a@, b@, r1, result@, inf(), front(b@, i as int, b@[i as int].0.start as int), inf(), next_front(b@, i as int),
+                    b@[i as int].0.start, b@[i as int].0.end, b@[i as int].1, false, true);
+            }
+        @after 5 `push_coalesced(`
+            proof {
+                lemma_adv_full(a@, ai as int, a_cur as int);
+                lemma_step(a@, b@, r0, result@, fa, fb, next_front(a@, ai as int), fb,
+                    a_cur, a_end, a@[ai as int].1, true, false);
+            }
+        @after 6 `push_coalesced(`
+            proof {
+                lemma_adv_full(b@, bi as int, b_cur as int);
+                lemma_step(a@, b@, r0, result@, fa, fb, fa, next_front(b@, bi as int),
+                    b_cur, b_end, b@[bi as int].1, false, true);
+            }
+        @after 7 `push_coalesced(`
+            proof {
+                lemma_adv_part(a@, ai as int, a_cur as int, b_cur as int);
+                lemma_step(a@, b@, r0, result@, fa, fb, b_cur as int, fb,
+                    a_cur, b_cur, a@[ai as int].1, true, false);
+            }
+        @after 8 `push_coalesced(`
+            proof {
+                lemma_adv_part(b@, bi as int, b_cur as int, a_cur as int);
+                lemma_step(a@, b@, r0, result@, fa, fb, fa, a_cur as int,
+                    b_cur, a_cur, b@[bi as int].1, false, true);
+            }
+        @before 1 `let overlap_start`
+            let ghost r1 = result@;
+            let ghost os = umax(a_cur, b_cur);
+            let ghost oe = umin(a_end, b_end);
+            proof { assert(minv(a@, b@, r1, os as int, os as int)); }
+        @before 9 `push_coalesced(`
+            let ghost mv = merged;
+            proof {
+                assert(overlap_start == os && overlap_end == oe);
+                assert(mv == a@[ai as int].1.merge_spec(&b@[bi as int].1));
+            }
+        @after 9 `push_coalesced(`
+            proof {
+                let fa2 = if a_end <= b_end { next_front(a@, ai as int) } else { oe as int };
+                let fb2 = if b_end <= a_end { next_front(b@, bi as int) } else { oe as int };
+                if a_end <= b_end { lemma_adv_full(a@, ai as int, os as int); } else { lemma_adv_part(a@, ai as int, os as int, oe as int); }
+                if b_end <= a_end { lemma_adv_full(b@, bi as int, os as int); } else { lemma_adv_part(b@, bi as int, os as int, oe as int); }
+                assert forall|c: int| #![trigger val_at(a@, c)] os <= c < oe implies val_at(a@, c).merge_spec(&val_at(b@, c)) == mv by {
+                    assert(val_at(a@, c) == a@[ai as int].1);
+                    assert(val_at(b@, c) == b@[bi as int].1);
+                }
+                lemma_step(a@, b@, r1, result@, os as int, os as int, fa2, fb2, os, oe, mv, true, true);
+                assert(minv(a@, b@, result@, fa2, fb2));
+            }
+        @end
+            proof { lemma_minv_final(old(self)@, other@, self@); }
         @*/
     }
 }
